@@ -134,3 +134,17 @@ V('C12', 'anytype-binding-not-widened', 'edb/edgeql/compiler/polyres.py',
             ctx.env.schema, ct = (
                 resolved_poly_base_type.find_common_implicitly_castable_type(''',
   'C12.R10', 'differing-binding-goes-through-common-type')
+# round 5: repair of tuple subtyping by arity
+V('C12', 'revert-fix-issubclass-arity', 'edb/schema/types.py',
+  'edb.schema.types.Collection._issubclass',
+  "        if len(parent_types) != len(my_types):\n            return False\n\n", "",
+  'C12.R11', '_issubclass:zip-arity')
+V('C12', 'revert-fix-distance-arity', 'edb/schema/types.py',
+  'edb.schema.types.Collection.get_common_parent_type_distance',
+  "        if len(other_types) != len(my_types):\n            return -1\n\n", "",
+  'C12.R11', 'get_common_parent_type_distance:zip-arity')
+# negative control: the comparison written the other way round
+V('C12', 'nc-issubclass-arity-eq-form', 'edb/schema/types.py',
+  'edb.schema.types.Collection._issubclass',
+  "        if len(parent_types) != len(my_types):\n            return False\n",
+  "        if not (len(my_types) == len(parent_types)):\n            return False\n", None)
